@@ -388,6 +388,14 @@ WRITE_OWNERS = {
 }
 
 
+def _orphans_only(stmt):
+    """DELETE FROM appointments restricted to bodies that neither link table refers to"""
+    import re
+    u = sql.norm(stmt).upper()
+    return all(re.search(r"LOCATOR\s+NOT\s+IN\s*\(\s*SELECT\s+(?:DISTINCT\s+)?LOCATOR\s+FROM\s+%s\s*\)" % t.upper(), u) or
+               re.search(r"NOT\s+EXISTS\s*\(\s*SELECT\s+.*?\s+FROM\s+%s\s+.*?LOCATOR" % t.upper(), u) for t in ("pending_appointments", "invalid_appointments"))
+
+
 def rule_SQ5(ctx, tier, which=None):
     rr = RuleResult("SQ5" + ({"tower": "t", "client": "c"}.get(which, "")), "table write ownership: each table is written only by the DBM methods that own it; shared rows are deleted only through the reference-counting path")
     P = ctx.prog
@@ -407,6 +415,13 @@ def rule_SQ5(ctx, tier, which=None):
         for key, meths in sorted(seen.items()):
             al = owners.get(key)
             extra = meths - (al or set())
+            if side == "client" and key == ("appointments", "delete") and extra:
+                # a sweep of bodies that NO link refers to any more is not a competing writer of shared rows
+                for meth in sorted(extra):
+                    mb = P.bodies.get(prefix + meth)
+                    dels = [st for bb, st in sql.body_sql(mb) if sql.classify(st)["kind"] == "delete" and sql.classify(st).get("table") == "appointments"] if mb else []
+                    if dels and all(_orphans_only(st) for st in dels):
+                        extra = extra - {meth}
             if al is None:
                 rr.fail("%s:unowned-write:%s.%s:%s" % (side, key[0], key[1], ",".join(sorted(meths))), "%s DBM: `%s` now performs %s on table `%s`, which no method was confirmed to write this way" % (side, sorted(meths), key[1].upper(), key[0]))
             elif extra:
@@ -476,6 +491,17 @@ def rule_SQ5(ctx, tier, which=None):
             rr.ok("shared appointment body deleted only when pending + invalid references == 1", sample={"rule": "SQ5", "reference count over": counted})
         else:
             rr.fail("client:refcount-tables:%s" % ",".join(counted), "delete_pending_appointment counts references over %s; both pending_appointments and invalid_appointments hold links to the shared body" % counted, where=d.span)
+        # abandoning a tower takes its links with it (cascade); the bodies only it referred to go too: `appointments` is
+        # the PARENT of the link tables, nothing cascades into it (C18: abandoning deletes all of that tower's records)
+        rt_ = P.bodies.get(PDBM + "remove_tower_record")
+        if rt_ is None:
+            rr.anchor_missing(PDBM + "remove_tower_record")
+        else:
+            sweeps = [st for bb, st in sql.body_sql(rt_) if sql.classify(st)["kind"] == "delete" and sql.classify(st).get("table") == "appointments" and _orphans_only(st)]
+            if sweeps:
+                rr.ok("remove_tower_record sweeps the appointment bodies no link refers to any more")
+            else:
+                rr.fail("client:orphan-bodies-after-abandon", "`remove_tower_record` deletes the tower (its links cascade) but not the appointment bodies that only this tower referred to: `appointments` is the parent of the link tables, nothing deletes a body whose last link went away through the cascade — the encrypted blobs of an abandoned tower stay in the database for ever", where=rt_.span)
         # ... and the body is deleted only on a path where that count was found to be (at most) one
         from .rulekit import facts_at, rel_of_term
         for bb, st in sql.body_sql(d):
